@@ -24,6 +24,9 @@ pub enum WV {
     /// a stream object of the base file, handed back unchanged: its data is still in the source
     /// file, which makes the next save fail ("failing save")
     InFile(u64),
+    /// a typed page (PagesNode::Leaf) with a one-part content stream and a direct resources
+    /// dictionary: writing it makes the library create further objects from inside to_primitive
+    Page { content: Vec<u8> },
 }
 #[derive(Clone, Debug, PartialEq)]
 pub enum Target {
@@ -49,6 +52,7 @@ fn wv_json(w: &WV) -> J {
         WV::Val(v) => json!({"val": v.to_json()}),
         WV::Stream { dict, data } => json!({"stream": {"dict": docgen::dict_to_json(dict), "data": docgen::hex(data)}}),
         WV::InFile(id) => json!({"infile": id}),
+        WV::Page { content } => json!({"page": docgen::hex(content)}),
     }
 }
 fn wv_from(j: &J) -> Option<WV> {
@@ -57,6 +61,9 @@ fn wv_from(j: &J) -> Option<WV> {
     }
     if let Some(s) = j.get("stream") {
         return Some(WV::Stream { dict: docgen::dict_from_json(s.get("dict")?)?, data: docgen::unhex(s.get("data")?.as_str()?)? });
+    }
+    if let Some(p) = j.get("page") {
+        return Some(WV::Page { content: docgen::unhex(p.as_str()?)? });
     }
     Some(WV::InFile(j.get("infile")?.as_u64()?))
 }
@@ -155,6 +162,7 @@ pub struct Outcome {
 
 fn to_primitive(file: &SimFile, w: &WV) -> Result<Primitive, String> {
     match w {
+        WV::Page { .. } => Err("typed value".into()),
         WV::Val(v) => Ok(val_to_prim(v)),
         WV::Stream { dict, data } => Stream::new(dict_to_prim(dict), data.clone()).to_primitive(&mut NoUpdate).map_err(|e| error_kind(&e)),
         WV::InFile(id) => match file.resolver().resolve(PlainRef { id: *id, gen: 0 }) {
@@ -167,8 +175,41 @@ fn to_primitive(file: &SimFile, w: &WV) -> Result<Primitive, String> {
 }
 
 /// Does `got` (as resolved) match what was written?
-fn matches(res: &impl Resolve, got: &Primitive, w: &WV) -> Result<(), String> {
+fn matches(res: &impl Resolve, at: PlainRef, got: &Primitive, w: &WV) -> Result<(), String> {
     match w {
+        WV::Page { content } => match got {
+            Primitive::Dictionary(d) => {
+                if d.get("Type").and_then(|t| t.as_name().ok()) != Some("Page") {
+                    return Err(format!("wrote a page, read {}", short(got)));
+                }
+                let c = match d.get("Contents") {
+                    Some(Primitive::Reference(c)) => *c,
+                    other => return Err(format!("page /Contents is {:?}", other.map(short))),
+                };
+                if c.id == at.id {
+                    return Err("page /Contents refers to the page object itself".into());
+                }
+                match res.resolve(c) {
+                    Ok(Primitive::Stream(s)) => match s.raw_data(res) {
+                        Ok(data) if &data[..] == &content[..] => {}
+                        Ok(data) => return Err(format!("page content: wrote {} bytes, read {} bytes", content.len(), data.len())),
+                        Err(e) => return Err(format!("page content: {}", error_kind(&e))),
+                    },
+                    Ok(p) => return Err(format!("page /Contents resolves to {}", short(&p))),
+                    Err(e) => return Err(format!("page /Contents fails to resolve: {}", error_kind(&e))),
+                }
+                match d.get("Resources") {
+                    Some(Primitive::Reference(x)) if x.id != at.id && x.id != c.id => match res.resolve(*x) {
+                        Ok(Primitive::Dictionary(_)) => {}
+                        Ok(p) => return Err(format!("page /Resources resolves to {}", short(&p))),
+                        Err(e) => return Err(format!("page /Resources fails to resolve: {}", error_kind(&e))),
+                    },
+                    other => return Err(format!("page /Resources is {:?}", other.map(short))),
+                }
+                Ok(())
+            }
+            p => Err(format!("wrote a page, read {}", short(p))),
+        },
         WV::Val(v) => {
             let p = val_to_prim(v);
             if prim_eq(&p, got) {
@@ -275,7 +316,7 @@ impl<'a> Exec<'a> {
         for (how, got) in via {
             match got {
                 Ok(p) => {
-                    if let Err(why) = matches(&res, &p, &exp.v) {
+                    if let Err(why) = matches(&res, r, &p, &exp.v) {
                         return Err((format!("{}: {} does not return the last value written ({})", phase, how, self.flags()), format!("ref {} {}: {}", r.id, r.gen, why)));
                     }
                 }
@@ -289,6 +330,21 @@ impl<'a> Exec<'a> {
 
     fn write(&mut self, target: Option<PlainRef>, w: &WV, promise: Option<PromisedRef<Primitive>>) -> Result<(), (String, String)> {
         self.out.writes += 1;
+        if let WV::Page { content } = w {
+            if promise.is_some() {
+                return Ok(());
+            }
+            let mut page = Page::new(self.file.trailer.root.pages.clone());
+            page.contents = Some(pdf::content::Content { parts: vec![Stream::new((), content.clone())] });
+            page.resources = Some(MaybeRef::Direct(std::sync::Arc::new(Resources::default())));
+            page.media_box = Some(Rectangle { left: 0.0, bottom: 0.0, right: 100.0, top: 100.0 });
+            let node = PagesNode::Leaf(page);
+            let result = match target {
+                Some(t) => self.file.update(t, node).map(|h| (Some(t), h.get_ref().get_inner())),
+                None => self.file.create(node).map(|h| (None, h.get_ref().get_inner())),
+            };
+            return self.record_write(result, w);
+        }
         let prim = match to_primitive(&self.file, w) {
             Ok(p) => p,
             Err(_) => return Ok(()), // e.g. InFile source not readable: not a write
@@ -301,6 +357,10 @@ impl<'a> Exec<'a> {
             (Some(t), None) => self.file.update(t, prim).map(|h| (Some(t), h.get_ref().get_inner())),
             (None, None) => self.file.create(prim).map(|h| (None, h.get_ref().get_inner())),
         };
+        self.record_write(result, w)
+    }
+
+    fn record_write(&mut self, result: Result<(Option<PlainRef>, PlainRef), pdf::PdfError>, w: &WV) -> Result<(), (String, String)> {
         match result {
             Ok((passed, handed)) => {
                 self.ever_written.insert(handed.id);
@@ -385,7 +445,7 @@ impl<'a> Exec<'a> {
                 const K3: &str = "encrypted base file: values written by save are stored unencrypted and do not read back";
                 match res.resolve(e.r) {
                     Ok(p) => {
-                        if let Err(why) = matches(&res, &p, &e.v) {
+                        if let Err(why) = matches(&res, e.r, &p, &e.v) {
                             if self.case.base.inv.encrypted {
                                 return Err((K3.to_string(), format!("ref {} {}: {}", e.r.id, e.r.gen, why)));
                             }
@@ -471,7 +531,7 @@ impl<'a> Exec<'a> {
                 Ok(())
             }
             Op9::Fulfil(k, w) => {
-                if self.promises.is_empty() || matches!(w, WV::InFile(_)) {
+                if self.promises.is_empty() || matches!(w, WV::InFile(_) | WV::Page { .. }) {
                     return Ok(());
                 }
                 let idx = k % self.promises.len();
@@ -705,6 +765,9 @@ impl C09 {
                 return WV::InFile(*rng.pick(&streams));
             }
         }
+        if rng.chance(1, 10) {
+            return WV::Page { content: format!("q 1 0 0 1 {} {} cm 0 0 10 10 re f Q", rng.below(100), rng.below(100)).into_bytes() };
+        }
         if rng.chance(1, 5) {
             let n = rng.usize(40);
             let data: Vec<u8> = (0..n).map(|_| rng.below(256) as u8).collect();
@@ -831,8 +894,8 @@ impl C09 {
                         break;
                     }
                     let simpler = match &best.ops[k] {
-                        Op9::Create(w) if *w != WV::Val(Val::Int(1)) && !matches!(w, WV::InFile(_)) => Some(Op9::Create(WV::Val(Val::Int(1)))),
-                        Op9::Update(t, w) if *w != WV::Val(Val::Int(1)) && !matches!(w, WV::InFile(_)) => Some(Op9::Update(t.clone(), WV::Val(Val::Int(1)))),
+                        Op9::Create(w) if *w != WV::Val(Val::Int(1)) && !matches!(w, WV::InFile(_) | WV::Page { .. }) => Some(Op9::Create(WV::Val(Val::Int(1)))),
+                        Op9::Update(t, w) if *w != WV::Val(Val::Int(1)) && !matches!(w, WV::InFile(_) | WV::Page { .. }) => Some(Op9::Update(t.clone(), WV::Val(Val::Int(1)))),
                         _ => None,
                     };
                     if let Some(s_op) = simpler {
